@@ -78,6 +78,16 @@ def strip(e):
         return e
 
 
+def flat_stmts(block):
+    """statements of a block, with blocks produced by inlining a local lambda (normalize.py) flattened in place"""
+    for s in block.get("c", []):
+        if s.get("k") == "CompoundStmt" and s.get("inlined_lambda"):
+            for x in flat_stmts(s):
+                yield x
+        else:
+            yield s
+
+
 def is_call(n):
     return n.get("k") in ("CallExpr", "CXXMemberCallExpr", "CXXOperatorCallExpr", "CXXConstructExpr",
                           "CXXTemporaryObjectExpr")
@@ -588,6 +598,14 @@ class Program:
                         self._pseudo("<init> " + g["name"], g.get("file") or j.get("tu"), g.get("l"), g["init"])
         self._check_diagnostics()
         self._check_config()
+        # semantics-preserving normalisation (local lambdas called directly are inlined), see normalize.py
+        from . import normalize
+        inv = normalize.load_inventory(os.path.join(os.path.dirname(os.path.abspath(__file__)), "reference_functions.txt"))
+        self.inlined_helper_calls = normalize.inline_new_helpers(self, inv, REPO)
+        self.inlined_lambda_calls = 0
+        for f in self.functions.values():
+            if f.get("file", "").startswith(REPO) and "/lib/" not in f.get("file", ""):
+                self.inlined_lambda_calls += normalize.inline_local_lambdas(f)
 
     def _pseudo(self, name, file, line, init):
         """Initialiser of a global / data member, presented as a function so that rules see its code."""
